@@ -53,15 +53,18 @@ WalkOrder(M, d, k) ==
 (***************************************************************************)
 Extends(d, op, i) == d[i].state \in op.extending
 
-ReplicaWalk(d, op, rf, za, ord) ==
+\* Marks(..)[n] = <<instance n of the walk is not passed over, number of replicas proper before it>>
+Marks(d, op, za, ord) ==
     LET L    == Len(ord)
         ext  == [n \in 1..L |-> Extends(d, op, ord[n])]
         zn   == [n \in 1..L |-> d[ord[n]].zone]
         \* not passed over: its zone has no earlier non-extending instance
         elig == [n \in 1..L |-> ~za \/ zn[n] = 0 \/ \A m \in 1..(n-1) : ext[m] \/ zn[m] # zn[n]]
-        \* number of replicas proper (non-extending, not passed over) strictly before n
-        before == [n \in 1..L |-> Cardinality({m \in 1..(n-1) : elig[m] /\ ~ext[m]})]
-    IN {ord[n] : n \in {n \in 1..L : elig[n] /\ before[n] < rf}}
+    IN [n \in 1..L |-> <<elig[n], Cardinality({m \in 1..(n-1) : elig[m] /\ ~ext[m]})>>]
+
+Pick(ord, marks, rf) == {ord[n] : n \in {n \in 1..Len(ord) : marks[n][1] /\ marks[n][2] < rf}}
+
+ReplicaWalk(d, op, rf, za, ord) == Pick(ord, Marks(d, op, za, ord), rf)
 
 (* The same set as a left-to-right scan: "need" grows with every extending *)
 (* instance picked.  WalkDefsAgree (RingLookupMC) shows both coincide.     *)
@@ -86,19 +89,19 @@ Majority(rf, walked) == (Max2(rf, walked) \div 2) + 1
 
 NoResult(e, W) == [ok |-> FALSE, err |-> e, ids |-> {}, maxErrors |-> 0, walked |-> W, plain |-> TRUE]
 
-LookupOn(d, ord, op, rf, za) ==
+ResultOn(d, ord, op, rf, W) ==
     IF Len(ord) = 0 THEN NoResult("empty", {})
-    ELSE LET W   == ReplicaWalk(d, op, rf, za, ord)
-             H   == {i \in W : Healthy(d, op, i)}
-             maj == Majority(rf, Cardinality(W))
+    ELSE LET H   == {i \in W : Healthy(d, op, i)}
+             nW  == Cardinality(W)
+             maj == Majority(rf, nW)
              \* plain = nothing but the first |W| instances of the walk, all healthy, no extension
-             plain == /\ H = W
-                      /\ Cardinality(W) <= rf
-                      /\ W = {ord[n] : n \in 1..Cardinality(W)}
+             plain == H = W /\ nW <= rf /\ W = {ord[n] : n \in 1..nW}
          IN IF Cardinality(H) < maj
             THEN [NoResult("unhealthy", W) EXCEPT !.plain = FALSE]
             ELSE [ok |-> TRUE, err |-> "", ids |-> H, maxErrors |-> Cardinality(H) - maj,
                   walked |-> W, plain |-> plain]
+
+LookupOn(d, ord, op, rf, za) == ResultOn(d, ord, op, rf, ReplicaWalk(d, op, rf, za, ord))
 
 Lookup(M, d, k, op, rf, za) == LookupOn(d, WalkOrder(M, d, k), op, rf, za)
 
